@@ -47,19 +47,20 @@ def properPair (s t : Seg) : Bool :=
   | .point false => sharesEndpoint s t
   | _ => false
 
-/-- fully noded: no zero-length segment, and every pair of segments is disjoint or touches at a common endpoint -/
-def nodedOK (out : List Seg) : Bool :=
-  out.all (fun s => s.a != s.b) && allPairs properPair out
+/-- fully noded: every pair of segments is disjoint or touches in one point that is an endpoint of both
+(a zero-length segment — a repeated input point is kept by the noder — counts as its point) -/
+def nodedOK (out : List Seg) : Bool := allPairs properPair out
 
 /-- every output segment lies (within tol) on some input segment -/
 def nearAll (t : Tol) (inp out : List Seg) : Bool :=
   out.all fun o => inp.any fun s => near t s o.a && near t s o.b
 
+def addEnd (S : List Pt) (a b : Pt) : List Pt := if S.contains a && !S.contains b then b :: S else S
+
+def growStep (S : List Pt) (s : Seg) : List Pt := addEnd (addEnd S s.a s.b) s.b s.a
+
 /-- one round of closure: add the far end of every allowed segment that has one end in `S` -/
-def grow (segs : List Seg) (S : List Pt) : List Pt :=
-  segs.foldl (fun S s =>
-    let S := if S.contains s.a && !S.contains s.b then s.b :: S else S
-    if S.contains s.b && !S.contains s.a then s.a :: S else S) S
+def grow (segs : List Seg) (S : List Pt) : List Pt := segs.foldl growStep S
 
 def closure (segs : List Seg) : Nat → List Pt → List Pt
   | 0, S => S
@@ -76,16 +77,16 @@ def coverAll (t : Tol) (inp out : List Seg) : Bool := inp.all (covered t out)
 def nodeCheck (t : Tol) (inp out : List (List Pt)) : Bool :=
   let i := inp.flatMap segsOf
   let o := out.flatMap segsOf
-  out.all (fun l => 2 ≤ l.length) && nodedOK o && nearAll t (i.filter fun s => s.a != s.b) o && coverAll t (i.filter fun s => s.a != s.b) o
+  out.all (fun l => 2 ≤ l.length) && nodedOK o && nearAll t i o && coverAll t (i.filter fun s => s.a != s.b) o
 
 /-- which clause of `nodeCheck` fails first (for the driver's answer line) -/
 def nodeVerdict (t : Tol) (inp out : List (List Pt)) : String :=
-  let i := (inp.flatMap segsOf).filter fun s => s.a != s.b
+  let i0 := inp.flatMap segsOf
+  let i := i0.filter fun s => s.a != s.b
   let o := out.flatMap segsOf
   if !out.all (fun l => 2 ≤ l.length) then "short-line"
-  else if !o.all (fun s => s.a != s.b) then "zero-length-segment"
   else if !allPairs properPair o then "not-noded"
-  else if !nearAll t i o then "output-off-input"
+  else if !nearAll t i0 o then "output-off-input"
   else if !coverAll t i o then "input-not-covered"
   else "ok"
 
@@ -109,9 +110,9 @@ structure InLine where
   pts : List Pt
 deriving Repr, Inhabited
 
-/-- depth-first search for a sequence of unused lines, each forward or reversed, whose concatenation
+/-- depth-first search for a sequence of unused lines, each forward or (if `allowRev`) reversed, whose concatenation
 (sharing the joint vertex) is `target` -/
-def decompose (lines : List InLine) : Nat → List Nat → List Pt → Option (List (Nat × Bool))
+def decompose (allowRev : Bool) (lines : List InLine) : Nat → List Nat → List Pt → Option (List (Nat × Bool))
   | 0, _, _ => none
   | fuel + 1, used, target =>
     match target with
@@ -122,14 +123,26 @@ def decompose (lines : List InLine) : Nat → List Nat → List Pt → Option (L
         if used.contains ln.id || ln.pts.length < 2 then none
         else
           let try1 := match stripPrefix ln.pts target with
-            | some rest => (decompose lines fuel (ln.id :: used) rest).map ((ln.id, true) :: ·)
+            | some rest => (decompose allowRev lines fuel (ln.id :: used) rest).map ((ln.id, true) :: ·)
             | none => none
           match try1 with
           | some r => some r
           | none =>
+            if !allowRev then none else
             match stripPrefix ln.pts.reverse target with
-            | some rest => (decompose lines fuel (ln.id :: used) rest).map ((ln.id, false) :: ·)
+            | some rest => (decompose allowRev lines fuel (ln.id :: used) rest).map ((ln.id, false) :: ·)
             | none => none
+
+/-- decompose several output lines one after the other, never using an input line twice -/
+def decomposeAll (allowRev : Bool) (lines : List InLine) : List (List Pt) → List Nat → Option (List (List (Nat × Bool)))
+  | [], _ => some []
+  | o :: r, used =>
+    match decompose allowRev lines (lines.length + 1) used (dedup o) with
+    | none => none
+    | some ch =>
+      match decomposeAll allowRev lines r (ch.map (·.1) ++ used) with
+      | none => none
+      | some rest => some (ch :: rest)
 
 /-! ### polygonize -/
 
@@ -194,7 +207,7 @@ def polygonOK (rings : List (List Pt)) : Bool :=
 /-- one use of an input line by a polygon ring: (line id, polygon interior lies to the left of the line's own direction) -/
 def ringUses (lines : List InLine) (isHole : Bool) (ring : List Pt) : Option (List (Nat × Bool)) :=
   let ccw := decide (area2 ring > 0)
-  (decompose lines (lines.length + 1) [] (dedup ring)).map fun ch =>
+  (decompose true lines (lines.length + 1) [] (dedup ring)).map fun ch =>
     ch.map fun (id, fwd) => (id, fwd == (ccw != isHole))
 
 structure PolyOut where
@@ -210,6 +223,39 @@ def matchWhole (lines : List InLine) : List (List Pt) → List Nat → Option (L
     match lines.find? (fun ln => !acc.contains ln.id && (dedup ln.pts == dedup o || dedup ln.pts == (dedup o).reverse)) with
     | some ln => matchWhole lines r (ln.id :: acc)
     | none => none
+
+def nodupB {α : Type} [DecidableEq α] : List α → Bool
+  | [] => true
+  | x :: r => !(r.any fun y => decide (y = x)) && nodupB r
+
+/-- all uses (line id, side) of input lines by the rings of all polygons; `none` if some ring is not a chain of input lines -/
+def usesOf (lines : List InLine) (polys : List (List (List Pt))) : Option (List (Nat × Bool)) :=
+  polys.foldl (fun acc rings => acc.bind fun a =>
+    match rings with
+    | [] => none
+    | shell :: holes =>
+      (ringUses lines false shell).bind fun u =>
+        (holes.foldl (fun acc h => acc.bind fun x => (ringUses lines true h).map (x ++ ·)) (some u)).map (a ++ ·)) (some [])
+
+/-- ids of the input lines making up the reported invalid rings -/
+def invalidIds (lines : List InLine) (invalid : List (List Pt)) : List Nat :=
+  invalid.flatMap fun r => ((decompose true lines (lines.length + 1) [] (dedup r)).getD []).map (·.1)
+
+/-- the two clauses of the polygonize contract that the property names, as one Boolean:
+no (line, side) bounds two rings; in full mode every input line bounds a polygon or is reported as dangle, cut edge or
+part of an invalid ring -/
+def polyCore (full : Bool) (lines : List InLine) (o : PolyOut) : Bool :=
+  let lines := lines.filter fun ln => 2 ≤ ln.pts.length
+  match usesOf lines o.polys with
+  | none => false
+  | some used =>
+    nodupB used &&
+    (!full ||
+      match matchWhole lines o.dangles [], matchWhole lines o.cuts [] with
+      | some dIds, some cIds =>
+        lines.all fun ln => (used.any fun u => u.1 == ln.id) || dIds.contains ln.id || cIds.contains ln.id ||
+          (invalidIds lines o.invalid).contains ln.id
+      | _, _ => false)
 
 /-- **polygonize contract** for correctly noded input `lines` (`full` = `GEOSPolygonize_full`, otherwise valid-only mode):
 rings are chains of input lines, no (line, side) is used twice, polygons are simple with properly nested holes;
@@ -232,7 +278,7 @@ def polygonizeVerdict (full : Bool) (key : Pt → Int) (lines : List InLine) (o 
     else
       match matchWhole lines o.dangles [], matchWhole lines o.cuts [] with
       | some dIds, some cIds =>
-        let inv := o.invalid.map fun r => decompose lines (lines.length + 1) [] (dedup r)
+        let inv := o.invalid.map fun r => decompose true lines (lines.length + 1) [] (dedup r)
         if inv.any Option.isNone then "invalid-ring-not-made-of-input-lines"
         else
           let invIds := (inv.flatMap fun u => (u.getD []).map (·.1))
@@ -271,6 +317,13 @@ def overlapOf (s t : Seg) : Seg :=
   let lo := pts.foldl (fun m p => if key p < key m then p else m) (pts.headD s.a)
   let hi := pts.foldl (fun m p => if key p > key m then p else m) (pts.headD s.a)
   ⟨lo, hi⟩
+
+/-- direction clauses of the shared-paths contract as one Boolean (see `sharedVerdict` for the full contract) -/
+def sharedCore (g1 g2 : List (List Pt)) (same opp : List (List Pt)) : Bool :=
+  let s1 := (g1.flatMap segsOf).filter fun s => s.a != s.b
+  let s2 := (g2.flatMap segsOf).filter fun s => s.a != s.b
+  (same.flatMap segsOf).all (fun o => (dirsIn s1 o).any fun d1 => (dirsIn s2 o).any fun d2 => d1 == d2) &&
+  (opp.flatMap segsOf).all (fun o => (dirsIn s1 o).any fun d1 => (dirsIn s2 o).any fun d2 => d1 != d2)
 
 /-- **shared paths contract** (g1, g2 simple lines): every output segment lies on g1 and on g2; paths reported as
 `same` run in the same direction along both, those reported `opp` in opposite directions; every collinear overlap of
